@@ -30,6 +30,8 @@ func infoLeaves(info *nfpm.Info) []leaf {
 
 var descPool = []string{
 	"short synopsis",
+	// a line longer than any line-reader buffer (a generated licence text, a base64 blob pasted into the description)
+	"synopsis\n" + strings.Repeat("long line without a break ", 3000) + "\nlast line",
 	"Synopsis line\nsecond line\nthird line",
 	"Synopsis\n\nparagraph after blank line\n\n\nmore",
 	"  padded synopsis  \n  indented line  ",
